@@ -358,6 +358,16 @@ func (t *tr) ret(r *ast.ReturnStmt) string {
 			return "some (" + strings.Join(parts, ", ") + ")"
 		}
 		return "none"
+	case "errbool":
+		// a function whose only result is `error`: true = returned nil
+		if len(r.Results) == 1 {
+			if id, ok := r.Results[0].(*ast.Ident); ok && id.Name == "nil" {
+				return "true"
+			}
+			return "false"
+		}
+		failf(r, "errbool: return with %d results", len(r.Results))
+		return ""
 	case "state":
 		var parts []string
 		for _, e := range r.Results {
@@ -500,6 +510,43 @@ func (t *tr) block(b []ast.Stmt, tail string, ind string) string {
 			"\n" + ind + "  else\n" + ind + "    " + t.block(els, tup, ind+"    ") + "\n" + ind + t.block(rest, tail, ind)
 	case *ast.BlockStmt:
 		return t.block(append(append([]ast.Stmt{}, x.List...), rest...), tail, ind)
+	case *ast.SwitchStmt:
+		// tagless `switch { case cond: ... default: ... }` (no init, no fallthrough/break): an if-chain
+		// in source order; Go evaluates the case conditions top to bottom and runs the first true one.
+		if x.Tag != nil || x.Init != nil {
+			failf(s, "only tagless switch statements without init are supported")
+		}
+		var def *ast.CaseClause
+		var clauses []*ast.CaseClause
+		for _, c := range x.Body.List {
+			cc := c.(*ast.CaseClause)
+			for _, bs := range cc.Body {
+				if br, ok := bs.(*ast.BranchStmt); ok {
+					failf(br, "branch statement %s inside switch unsupported", src(br))
+				}
+			}
+			if cc.List == nil {
+				def = cc
+			} else {
+				clauses = append(clauses, cc)
+			}
+		}
+		out := ""
+		for _, cc := range clauses {
+			var cs []string
+			for _, e := range cc.List {
+				cs = append(cs, t.expr(e))
+			}
+			c := cs[0]
+			if len(cs) > 1 {
+				c = "(" + strings.Join(cs, " || ") + ")"
+			}
+			out += "if " + c + " then\n" + ind + "  " + t.block(append(append([]ast.Stmt{}, cc.Body...), rest...), tail, ind+"  ") + "\n" + ind + "else\n" + ind
+		}
+		if def != nil {
+			return out + t.block(append(append([]ast.Stmt{}, def.Body...), rest...), tail, ind)
+		}
+		return out + t.block(rest, tail, ind)
 	}
 	failf(s, "unsupported statement %T: %s", s, src(s))
 	return ""
